@@ -9,6 +9,7 @@ from .. import scope, vpool, audit, faults, chkmodel
 from ..common import build, exc_text
 from ..runner import Rec, h64
 
+PATHFORMS = False      # (this check spells its input paths itself)
 PROPERTY = "C13"
 LEVEL = "fault_enumeration"
 RULE = ("case = one tool entry point (API or main() with sys.argv) x invocation form (explicit / default output / output = the "
